@@ -55,6 +55,13 @@ def leaf(fn, F):
 
 def run(ctx):
     F = ctx.facts
+    ks = n1(ctx, F)
+    run_rest(ctx, F, ks)
+
+
+def n1(ctx, F):
+    """N1 per searcher: what a node with no move available returns (draw iff the mover's king is safe, else a mate score by
+    distance), the mover captured before anything is played, the kind of move list the test is made on.  Returns {path: K}."""
     ks = {}
     EMPTY = ("call", "arrayvec::ArrayVec::<T, CAP>::is_empty", (("var", "moves"),))
     for path, (kind, checked) in SIBS.items():
@@ -126,6 +133,10 @@ def run(ctx):
         flags = sorted(v["flag"] for v in pv.buffers.values())
         ctx.check("C10.N1", "list-kind:%s" % short, flags == [checked], fn=path, file=fn["file"], nontrivial=False,
                   what="sibling uses the expected kind of move list", expected=[checked], found=flags)
+    return ks
+
+
+def run_rest(ctx, F, ks):
     n4(ctx, F)
     # N5: a mating move can stand anywhere in the ordered list and need not look tactical: every generated move must be searched
     # unless a cut-off ends the node (forward pruning hides quiet and discovered mates) - the census of loop exits of C09.B3
